@@ -1190,6 +1190,10 @@ static void DecodeBYTE(Word Index) {
                 }
                 break;
             }
+            case TempReg:
+                WrStrErrorPos(ErrNum_ExpectIntOrString, &ArgStr[z]);
+                OK = False;
+                break;
             case TempFloat:
                 WrStrErrorPos(ErrNum_StringOrIntButFloat, &ArgStr[z]);
                 /* fall-through */
